@@ -147,7 +147,7 @@ def run(ctx):
     binp = build()
     lap("build")
     q = ctx.quick()
-    layouts = 2 if q else 10
+    layouts = 2 if q else 24
     info = {}
 
     def branch_docs():
